@@ -302,7 +302,7 @@ Profile(name) ==
   CASE name = "full" -> [vars |-> {"a", "b", "c"}, bin |-> ArithOps, asg |-> AsgOps, un |-> {"+", "-", "!", "~"}, inc |-> {"++", "--"}]
     [] name = "rep"  -> [vars |-> {"a", "b"}, bin |-> {"*", "+", "-", "<<", "<", ">", "==", "&", "^", "|", "&&", "||"}, asg |-> {"=", "+="},
                          un |-> {"-", "!"}, inc |-> {"++"}]
-    [] name = "rep1" -> [vars |-> {"a"}, bin |-> {"*", "-", "<<", "<", "==", "&", "|", "&&", "||"}, asg |-> {"="},
+    [] name = "rep1" -> [vars |-> {"a"}, bin |-> {"*", "-", "<<", "<", "==", "&", "^", "|", "&&", "||"}, asg |-> {"="},
                          un |-> {"-", "!"}, inc |-> {"++"}]
 
 \* TR(pf, sort, n, root): the trees of that sort with exactly n operators whose ROOT production belongs to one of the
@@ -456,12 +456,14 @@ CasesOf(st) == IF st.kind = "exact" THEN Stmts(st.pf, st.n, {st.ctx[i] : i \in D
 AllCases == UNION {CasesOf(Plan[i]) : i \in DOMAIN Plan}
 CaseSeq == SetToSeq(AllCases)
 
-ASSUME Mode = "laws" =>
-         /\ \A t \in AllCases : ParsesBack(t, IsCpp)
-         /\ Cardinality({PrintExpr(t, IsCpp) : t \in AllCases}) = Cardinality(AllCases)
-         /\ PrintT(<<"LAWS", Cardinality(AllCases)>>)
+Laws == /\ \A t \in AllCases : ParsesBack(t, IsCpp)
+        /\ Cardinality({PrintExpr(t, IsCpp) : t \in AllCases}) = Cardinality(AllCases)
 
+ASSUME Mode = "laws" => Laws /\ PrintT(<<"LAWS", Cardinality(AllCases)>>)
+
+\* gen checks the laws on exactly the cases it writes
 ASSUME Mode = "gen" =>
+         /\ Laws /\ PrintT(<<"LAWS", Cardinality(AllCases)>>)
          /\ ndJsonSerialize(IOEnv.OUT, [i \in DOMAIN CaseSeq |-> [id |-> i, n |-> Size(CaseSeq[i]), toks |-> PrintExpr(CaseSeq[i], IsCpp), t |-> CaseSeq[i]]])
          /\ PrintT(<<"CASES", Len(CaseSeq)>>)
 
